@@ -74,7 +74,7 @@ PROPS["C12"] = {
     "level": "proof",
     "prop_modules": ["Flounder.Props.C12", "Flounder.Props.C12Parse"],
     "budget": {"quick": [("c12", 5000)], "thorough": [("c12", 400000)], "search": [("c12", 800000)]},
-    "rule": "go commands through the REAL parser (hook verif_go_budget): the four clock pairs in random order, pairs missing, values from {0,1,4999,5000,5001,5025,random up to 2^40}; irregular stream with depth/movetime/infinite/junk/missing values/bad numbers; for every well-formed command a twin with the opponent's values replaced must give the same budget and both must fit the mover's clock; distinct = distinct command texts",
+    "rule": "go commands through the REAL parser (hook verif_go_budget): the four clock pairs in random order, pairs missing, values from {0,1,4999,5000,5001,5025,random up to 2^40}; irregular stream with depth/movetime/infinite/junk/missing values/bad numbers; for every well-formed command (optionally with a depth cap or movestogo before or after the clocks; negative clock values included) a twin with the opponent's values replaced must give the same finite budget and both must fit the mover's clock; black-box: clock commands on the real binary (clock under the reserve, zero clock, depth after the clocks, opponent's values huge) must be answered before the mover's clock runs out; distinct = distinct command texts",
     "trusted_base": [KERNEL, AXIOMS, TIE, EXTRACT, "u64 milliseconds modelled as Nat (no_u64_overflow covers values below 2^62 ms)", "str::split_whitespace / str::parse::<u64> modelled by digitsVal/parseU64 over List Char"],
     "assumptions": ["clock values below 2^62 ms", "hook verif_go_budget observes the parameters handle_go_command hands to find_best_move"],
     "finding_key": lambda sf: None,
@@ -130,6 +130,7 @@ SEARCH_TB = [KERNEL, AXIOMS, TIE, EXTRACT,
              "Instant::now()/elapsed() modelled as a deadline oracle over poll indices / node counts (every monotone clock); quiescence termination and stack depth are assumptions (fuel)"]
 HASHINJ = "HashInj: no Zobrist collision among the positions a run visits (hypothesis of the theorems; probability remark in DESIGN.md C11)"
 
+PROPS["C12"]["custom"] = [blackbox.step_clock_go]
 PROPS["C01"]["level"] = "proof"
 PROPS["C01"]["prop_modules"] = ["Flounder.Props.C01"]
 PROPS["C01"].pop("explanation", None)
